@@ -301,6 +301,7 @@ func runC14(r *core.Run) {
 	}
 	runtime.GOMAXPROCS(old)
 	c14SourcePhase(r)
+	c14Web(r)
 	raceCanary()
 	canary, others, samples := raceReports()
 	r.Set("race_reports_canary", canary)
